@@ -1,13 +1,101 @@
-"""Property registry: which contracts / engines decide which property."""
+"""Property registry: which contracts / engines decide which property, and what is claimed."""
 from . import contract as C
 
+KERNEL_NOTE = ('Trusted base: the pyvc VC generator and its stated encoding of Python int semantics; z3/cvc5; '
+               'the lemma library about 2**k / bit length (ground instances only; bounded exhaustive self-check '
+               'on every run, Lean proofs where present); assumed leaf python_bitcount (= int.bit_length); '
+               'constant tables checked exhaustively on every run; callee contracts proved under the property '
+               'named in evidence.callee_contracts_relied_on.')
+
 PROPS = {
-    'C01': dict(title='canonical representation', level='proof', engines=[]),
-    'C02': dict(title='basic arithmetic correctly rounded', level='proof', engines=[]),
-    'C10': dict(title='no more bits than the working precision', level='proof', engines=[]),
-    'C05': dict(title='comparisons exact, equal numbers hash equally', level='proof', engines=[]),
-    'C11': dict(title='working precision restored on every exit', level='proof', engines=['precframe'],
-                no_units=True),
+    'C01': dict(
+        title='canonical representation', level='proof', engines=[],
+        claim='Every raw mpf returned by the libmpf kernel functions under contract (normalisation, construction, '
+              'sign operations, add/sub/mul/div, shift) is canonical: proved for all integer inputs, all precisions and '
+              'all five rounding modes as a postcondition (ensures_wf) of the real function bodies, function by function. '
+              'Consequence clause: mpf_eq is tuple equality, so equal canonical values are identical tuples. '
+              'Functions outside the contract set are not covered (listed in DESIGN.md).',
+        note=KERNEL_NOTE,
+        technique='deductive: AST->z3 verification conditions from sidecar contracts on the real libmpf functions'),
+    'C02': dict(
+        title='basic arithmetic correctly rounded', level='other', engines=[],
+        claim='Proved (deductive, all inputs/precisions/modes): _normalize, _normalize1, from_man_exp, from_int, '
+              'mpf_pos/neg/abs, mpf_add/mpf_sub (every path except the far-exponent sticky shortcut), python_mpf_mul, '
+              'python_mpf_mul_int, mpf_div special values and power-of-two divisors return the correctly rounded value '
+              '(order-theoretic spec CRound taken from the property text). Bounded stand-ins (never counted as proved): '
+              'the sticky-bit sub-cases of mpf_add (far-apart exponents) and of mpf_div / mpf_rdiv_int (general quotients), '
+              'checked natively against the same contract clause with exact integer arithmetic over enumerated domains.',
+        note=KERNEL_NOTE + ' Not covered: mpf_sqrt, fsum/fdot, the context-level operator templates.',
+        technique='deductive VCs (z3) + bounded native contract evaluation for two declared sticky-bit gaps',
+        explanation='mixed: deductive proof for all clauses except the declared gaps (coverage.bounded lists domains and counts)'),
+    'C05': dict(
+        title='comparisons exact, equal numbers hash equally', level='proof', engines=[],
+        claim='mpf_cmp returns the sign of the exact difference (nan excluded), mpf_lt/le/gt/ge agree with exact order and '
+              'are False for nan, mpf_eq is exact, mpf_sign exact; mpf_hash equals CPython\'s numeric hash formula '
+              '(reduction modulo 2**61-1 with 2**exp reduced through 2**61 == 1) for every canonical value including '
+              'negative exponents. Proved for all inputs from the real function bodies.',
+        note=KERNEL_NOTE + ' The statement "CPython hashes ints/floats by this formula" is the trusted oracle; '
+             'mpc_hash, mpq and the context-level __eq__/__hash__ wrappers are not yet under contract.',
+        technique='deductive: AST->z3 verification conditions from sidecar contracts'),
+    'C10': dict(
+        title='no more bits than the working precision', level='proof', engines=[],
+        claim='Every kernel function under contract that takes (prec, rnd) returns a mantissa of at most prec bits when '
+              'prec > 0 (ensures_bits), for all inputs and modes; proved from the real bodies.',
+        note=KERNEL_NOTE + ' Elementary/special functions and the context layer are not yet covered by this clause.',
+        technique='deductive: AST->z3 verification conditions from sidecar contracts'),
+    'C11': dict(
+        title='working precision restored on every exit', level='proof', engines=['precframe'], no_units=True,
+        claim='For every function, method, nested function and lambda in mpmath (outside tests and libmp; 1093 on this tree) '
+              'the contract "on every exit, normal or exceptional, the precision equals its entry value" is discharged: '
+              'syntactically by the frame rule for functions that never write the precision, and by path-sensitive symbolic '
+              'execution with an exceptional edge at every statement that can raise while the precision is changed '
+              '(and inside every try with handlers) for the others. Setters, declared helpers (callers see the precision '
+              'havocked) and bodies protected by the proved _wrap_specfun wrapper are classified explicitly.',
+        note='Assumes: user callbacks leave the precision unchanged (they may raise); one context per function; '
+             'dps<->prec conversions are uninterpreted (so a restore through dps is not accepted); unmodelled code is '
+             'havocked. Dynamic fault-injection drivers replay violations on the real code where a driver exists.',
+        technique='deductive precision-frame contracts per function (symbolic execution + z3), modular via helper classes'),
+}
+
+NOT_APPLICABLE = {
+    'C03': 'not built yet in this session (planned: direction invariant of mpf_pow_int by contract)',
+    'C04': 'not built yet (libmpc contracts)',
+    'C06': 'not built yet (mpf_round_int/floor/ceil/nint/frac/mod contracts)',
+    'C07': 'not built yet (from_str numeric core contract + bounded parsing)',
+    'C08': 'round-trip/nearest-decimal needs a two-sided error analysis of to_digits_exp mixing floats, radix conversion and string slicing: outside what VCs over integers can decide; bounded-only tier not built',
+    'C09': 'not built yet (from_float/to_float under assumed IEEE builtin contracts)',
+    'C12': 'accuracy of elementary functions is a real-analysis statement (truncation + rounding error of series/Newton kernels); no contract within reach decides it',
+    'C13': 'not built yet (special-value entry paths)',
+    'C14': 'not built yet (libmpi contracts)',
+    'C15': 'not built yet (libmpi complex contracts)',
+    'C16': 'not built yet (interval comparison contracts)',
+    'C17': 'not built yet (constant_memo contract)',
+    'C18': 'accuracy of gamma-family functions is analytic; not decidable by contracts over integers',
+    'C19': 'accuracy of zeta-family evaluations (Borwein / Euler-Maclaurin / Riemann-Siegel) is analytic',
+    'C20': 'accuracy of error/exponential/incomplete-gamma integrals is analytic',
+    'C21': 'accuracy of Bessel/Airy families is analytic (hypercomb cancellation heuristics, asymptotic switches)',
+    'C22': 'accuracy of hypergeometric functions / orthogonal polynomials is analytic',
+    'C23': 'accuracy of elliptic/theta/modular/AGM/Lambert W is analytic',
+    'C24': 'termination of series summation loops depends on convergence of asymptotic series for the given argument: no ranking function without the analysis (termination of integer loops under contract is reported with their functions)',
+    'C25': 'not built yet (ifac/ifac2 memo contracts + exact-oracle bounded tier)',
+    'C26': 'convergence/accuracy of quadrature on classes of integrands is analytic',
+    'C27': 'convergence of series/limits/extrapolation is analytic',
+    'C28': 'accuracy of numerical differentiation/Taylor/Pade is analytic',
+    'C29': 'not built yet (findroot verify clause, MNewton kwargs)',
+    'C30': 'backward-error statements about floating-point LU/QR are numerical analysis, not VCs',
+    'C31': 'eigen/SVD residual bounds are numerical analysis',
+    'C32': 'matrix function identities to a tolerance are numerical analysis',
+    'C33': 'not built yet (cache protocol contracts)',
+    'C34': 'accuracy of ODE Taylor stepping is analytic',
+    'C35': 'not built yet (pslq return guards)',
+    'C36': 'approximation accuracy is analytic',
+    'C37': 'not built yet (gmpy_* Python-source twins against the same contract)',
+    'C38': 'not built yet (context ownership contracts)',
+    'C39': 'not built yet (mag / nint_distance / classification contracts)',
+    'C40': 'not built yet (pickle round trip under assumed hex builtin)',
+    'C41': 'locating/counting zeta zeros correctly rests on analytic facts (Gram/Rosser blocks, Turing method)',
+    'C42': 'accuracy of numerical inverse Laplace transforms is analytic (its precision handling is decided under C11)',
+    'C43': 'fp results are IEEE doubles from libm; no float theory here matches libm, and agreement to 2**-48 is numerical',
 }
 
 
@@ -21,7 +109,6 @@ def targets_for(prop):
             ps.update(p)
         if prop in ps:
             out.append(name)
-    # assumed leaves used by those functions are listed through their contracts
     for name, ct in C.BY_NAME.items():
         if ct.assumed and name not in out:
             out.append(name)
